@@ -1312,7 +1312,9 @@ def judge_compatible(ctx, case, want, line, reply):
         ctx.disagree("compatible", {"case": jsonable_case(case), "line": line}, reply, "compatible settings did not complete")
     if c19 is not None and not (case["calpn"] and case["salpn"]):
         ctx.count("compatible-vs-c19:%s/%s" % (m["compat"], c19[0]))
-        if c19[0] is True and m["compat"] != "1":
+        # ("ok-some-suites" is C19's weaker reading — some common suite works — which Lean states as
+        # `compatibleSome`; `compatible` demands that every common suite works)
+        if c19[0] is True and c19[1] == "ok" and m["compat"] != "1":
             ctx.disagree("compatible-vs-c19", {"case": jsonable_case(case), "line": line}, reply,
                          "c19_pairs.compatible says must complete (%s)" % (c19[1],))
         if c19[0] is False and m["compat"] == "1":
